@@ -499,6 +499,7 @@ func (w *World) keeperStep(st *Step, f func(ctx sdk.Context) error) {
 
 // EndBlock step.
 func (w *World) EndBlock() *Step {
+	w.phantomQueries()
 	st := w.newStep("end_block", "block")
 	n := len(w.C.Panics)
 	res, ok := w.C.EndBlock()
